@@ -131,7 +131,7 @@ impl<T: Value> ErasedObserver for InternalObserver<T> {
                     InUse => {
                         let observing = self.observing_erased();
                         let num = observing.num_on_update_handlers();
-                        num.increment();
+                        num.decrement();
                         Ok(())
                     }
                     _ => unreachable!(),
